@@ -39,16 +39,17 @@ def group_lines(t, combo, lens=None, forced=False, tap=False, order=None, open_f
     return out
 
 
-def render_body(body):
+def render_body(body, base=0):
+    """(base: added to every tick when the text is written - the records keep the small numbers, TLC's integers are 32-bit)"""
     lines = []
     for it in body:
         k = it[0]
         if k == "N":
-            lines.append(n_line(it[1], it[2], it[3]))
+            lines.append(n_line(it[1] + base, it[2], it[3]))
         elif k == "S":
-            lines.append(s_line(it[1], it[2]))
+            lines.append(s_line(it[1] + base, it[2]))
         elif k == "E":
-            lines.append(e_line(it[1], it[2]))
+            lines.append(e_line(it[1] + base, it[2]))
         elif k == "J":
             lines.append(it[1])
         else:
@@ -67,7 +68,7 @@ def case_text(case) -> str:
         song=case.get("song"),
         sync=sync_lines(case.get("tempo") or [[0, 120000]]),
         events=case.get("events"),
-        tracks={case.get("header", HEADER): render_body(case["body"])},
+        tracks={case.get("header", HEADER): render_body(case["body"], case.get("tick_base", 0))},
     )
 
 
@@ -96,24 +97,24 @@ def _blank(cid, case, body, props) -> dict:
     }
 
 
-def _project(rec, chart, tr):
-    """Fill a record with the observed state of one parsed instrument track."""
+def _project(rec, chart, tr, base=0):
+    """Fill a record with the observed state of one parsed instrument track (ticks relative to `base`)."""
     bpm = chart.sync_track.bpm_events
     for e in tr.note_events:
         rec["notes"].append({
-            "t": int(e.tick),
+            "t": int(e.tick) - base,
             "lanes": [int(x) for x in e.note.value],
             "h": e.hopo_state.name,
             "sp": -1 if e.star_power_data is None else int(e.star_power_data.star_power_event_index),
             "su": _su(e.sustain),
             "lg": int(e.longest_sustain),
-            "et": int(e.end_tick),
+            "et": int(e.end_tick) - base,
             "us": limbs(td_us(e.timestamp)),
             "eus": limbs(td_us(e.end_timestamp)),
             "qe": limbs(td_us(bpm.timestamp_at_tick_no_optimize_return(e.end_tick))),
             "p": len(rec["notes"]),
         })
-    rec["sp"] = [{"t": int(e.tick), "l": int(e.sustain)} for e in tr.star_power_events]
+    rec["sp"] = [{"t": int(e.tick) - base, "l": int(e.sustain)} for e in tr.star_power_events]
     last = tr.last_note_end_timestamp
     rec["last"] = [] if last is None else [limbs(td_us(last))]
     # the note list once more, after the track's derived attributes, a rate query and the rendering have been read: the
@@ -123,11 +124,11 @@ def _project(rec, chart, tr):
             f()
         except Exception:  # noqa: BLE001
             pass
-    rec["again"] = [{"t": int(e.tick), "lanes": [int(x) for x in e.note.value], "h": e.hopo_state.name,
+    rec["again"] = [{"t": int(e.tick) - base, "lanes": [int(x) for x in e.note.value], "h": e.hopo_state.name,
                      "sp": -1 if e.star_power_data is None else int(e.star_power_data.star_power_event_index),
-                     "su": _su(e.sustain), "lg": int(e.longest_sustain), "et": int(e.end_tick),
+                     "su": _su(e.sustain), "lg": int(e.longest_sustain), "et": int(e.end_tick) - base,
                      "eus": limbs(td_us(e.end_timestamp))} for e in tr.note_events]
-    rec["spagain"] = [{"t": int(e.tick), "l": int(e.sustain)} for e in tr.star_power_events]
+    rec["spagain"] = [{"t": int(e.tick) - base, "l": int(e.sustain)} for e in tr.star_power_events]
     return rec
 
 
@@ -145,7 +146,7 @@ def observe(case, props) -> dict:
     if len(tracks) != 1:
         rec["raised"] = "NoTrack"
         return rec
-    return _project(rec, chart, tracks[0])
+    return _project(rec, chart, tracks[0], case.get("tick_base", 0))
 
 
 def multi_text(case) -> str:
@@ -263,7 +264,7 @@ def random_track(rng, n_groups, *, max_tick_gap=400, res=192, big=False, phrases
         for fl in (5, 6):
             if rng.random() < (0.3 if not flags_only else 0.8):
                 lens[fl] = rng.randrange(0, 500)  # flag lines may carry a (meaningless) length
-        dup = rng.choice([1, 1, 2]) if (forced or tap) and rng.random() < 0.06 else 0      # a flag line written twice or three times
+        dup = rng.choice([1, 1, 2, 4, 7, 12]) if (forced or tap) and rng.random() < 0.06 else 0      # a flag line written twice, three times ... (ticks of 10+ lines)
         nfl = len(idxs) + int(forced) + int(tap) + dup
         order = list(range(nfl))
         rng.shuffle(order)
